@@ -44,7 +44,8 @@ from ..core import (AnalysisError, call_name, const_str, dotted, find_calls,
                     qualname, short, txt, walk)
 from ..normalize import expand_locals
 from ..lib_C14 import (BASIN_TYPES, CORE, DCORBASE, FB, FDICT, H5BASE,
-                       WRITER, Raises, Unknown, Mini, base_names, cfg_ids,
+                       WRITER, Raises, Unknown, Mini, Model, base_names,
+                       cfg_ids,
                        class_assign, classes_in, edge_guarded,
                        enclosing_conditions, fact_guard, files_mentioning,
                        fold, fold_basin_classes, method, self_attr_writes,
@@ -2090,6 +2091,442 @@ def r144_transient(ctx, repo):
            f"re-checked")
 
 
+# ----------------------------------------------------------------------
+# the availability verdict is evaluated on the table of probe outcomes
+class _ProbeFailed(Exception):
+    """the probe (or the method itself) raises on this row"""
+
+
+class _Row(tuple, Model):
+    """value of a probe that returns a (named) pair"""
+
+    def __new__(cls, vals, **kw):
+        return tuple.__new__(cls, vals)
+
+    def __init__(self, vals, **kw):
+        self.__dict__.update(kw)
+
+
+_RAISES = "<raises>"
+PATH_PROBES = {"exists", "is_file", "is_dir"}
+
+
+def _http_failure_phrases():
+    import http
+    return tuple(sorted({s.phrase.lower() for s in http.HTTPStatus
+                         if s.value >= 400}))
+
+
+def _function_is_impure(repo, rel, fn, seen=None):
+    """`fn` (module-level function of file `rel`) touches the network / file
+    system itself or through the module-level functions it calls"""
+    seen = set() if seen is None else seen
+    if (rel, fn.name) in seen:
+        return False
+    seen.add((rel, fn.name))
+    for c in [n for n in walk(fn) if isinstance(n, ast.Call)]:
+        d = dotted(c.func) or ""
+        if d.startswith(IMPURE_PREFIX) or d == "open":
+            return True
+        if isinstance(c.func, ast.Attribute) and c.func.attr in \
+                IMPURE_METHODS:
+            return True
+        if isinstance(c.func, ast.Name):
+            r = _resolve_function(repo, rel, c.func.id)
+            if r is not None and _function_is_impure(repo, r[0], r[1], seen):
+                return True
+    return False
+
+
+def _probe_rows(what, fd, call):
+    """the values the probe function `fd` can hand to `call`, each with the
+    answer "the object is available": -> [(value, available)]"""
+    a = fd.args
+    params = [x.arg for x in a.args]
+    env = {}
+    for prm, d in zip(a.args[len(a.args) - len(a.defaults):], a.defaults):
+        if isinstance(d, ast.Constant):
+            env[prm.arg] = d.value
+    for i, arg in enumerate(call.args):
+        if isinstance(arg, ast.Starred) or i >= len(params):
+            raise AnalysisError(f"{what}: probe call `{short(call, 50)}` "
+                                f"not understood")
+        env.pop(params[i], None)
+        if isinstance(arg, ast.Constant):
+            env[params[i]] = arg.value
+    for k in call.keywords:
+        if k.arg is None:
+            raise AnalysisError(f"{what}: probe call `{short(call, 50)}` "
+                                f"not understood")
+        env.pop(k.arg, None)
+        if isinstance(k.value, ast.Constant):
+            env[k.arg] = k.value.value
+    rets = []
+    for r in [n for n in walk(fd) if isinstance(n, ast.Return)]:
+        try:
+            live = all(bool(Mini(env).ev(t)) == pol
+                       for t, pol in enclosing_conditions(r, fd))
+        except Unknown:
+            live = True
+        if live:
+            rets.append(r)
+    if not rets or any(r.value is None for r in rets):
+        raise AnalysisError(f"{what}: results of {fd.name} not recognised")
+
+    def fields(v):
+        """[(field name or None, value expr)] of a returned pair, or None"""
+        if isinstance(v, ast.Tuple) and len(v.elts) == 2:
+            return [(None, x) for x in v.elts]
+        if isinstance(v, ast.Call) and len(v.keywords) == 2 and not v.args \
+                and all(k.arg for k in v.keywords):
+            return [(k.arg, k.value) for k in v.keywords]
+        return None
+    shapes = [fields(r.value) for r in rets]
+    if all(s is None for s in shapes):
+        if any(isinstance(r.value, (ast.Tuple, ast.Call, ast.Dict, ast.List))
+               for r in rets):
+            raise AnalysisError(f"{what}: results of {fd.name} not "
+                                f"recognised")
+        return [(True, True), (False, False)]
+    if any(s is None for s in shapes) or len(
+            {tuple((f, txt(x)) for f, x in s) for s in shapes}) != 1:
+        raise AnalysisError(f"{what}: {fd.name} returns pairs of different "
+                            f"shape")
+    shape = shapes[0]
+    if not all(isinstance(x, ast.Name) for _, x in shape):
+        raise AnalysisError(f"{what}: {fd.name}: returned pair not made of "
+                            f"locals")
+
+    def values(name):
+        return [n.value for n in walk(fd) if isinstance(n, ast.Assign)
+                and any(is_name(t, name) for t in n.targets)]
+    kinds = []
+    for _, x in shape:
+        consts = [v.value for v in values(x.id)
+                  if isinstance(v, ast.Constant)]
+        if consts and all(isinstance(c, bool) for c in consts):
+            kinds.append("avail")
+        elif consts and all(isinstance(c, str) for c in consts):
+            kinds.append("reason")
+        else:
+            kinds.append("?")
+    if sorted(kinds) != ["avail", "reason"]:
+        raise AnalysisError(f"{what}: {fd.name}: cannot tell the answer "
+                            f"from the reason in the returned pair")
+    an = shape[kinds.index("avail")][1].id
+    rn = shape[kinds.index("reason")][1].id
+
+    def initial(name):
+        for st in fd.body:
+            if isinstance(st, ast.Assign) and any(
+                    is_name(t, name) for t in st.targets) and isinstance(
+                    st.value, ast.Constant):
+                return st.value.value
+            if any(isinstance(n, ast.Name) and n.id == name
+                   for n in ast.walk(st)):
+                break
+        raise AnalysisError(f"{what}: {fd.name}: initial value of `{name}` "
+                            f"not found")
+    if initial(an) is not False:
+        raise AnalysisError(f"{what}: {fd.name}: `{an}` does not start as "
+                            f"False")
+    r0 = initial(rn)
+    reasons = []
+    for v in values(rn):
+        if isinstance(v, ast.Constant):
+            reasons.append(v.value)
+        elif ".reason" in txt(v) and ".lower()" in txt(v):
+            # the reason phrase of the HTTP response, lower-cased
+            reasons.extend(_http_failure_phrases())
+        else:
+            raise AnalysisError(f"{what}: {fd.name}: reason "
+                                f"`{short(v, 40)}` not recognised")
+    rows = []
+    for ok, rs in [(True, r0)] + [(False, r) for r in dict.fromkeys(reasons)
+                                 if r != r0]:
+        vals = [ok if k == "avail" else rs for k in kinds]
+        names = {f: v for (f, _), v in zip(shape, vals) if f}
+        rows.append((_Row(vals, **names), ok))
+    return rows
+
+
+def _availability_oracles(repo, rel, m, what):
+    """the calls of an is_available method whose result the analysis does
+    not compute: -> (probes {call text: rows}, predicates [call text],
+    objects [call text])"""
+    probes, preds, objs = {}, [], []
+
+    def local_object(name):
+        v = single_assign(m, name)
+        return isinstance(v, ast.Call) and classify(v, dry=True) == "object"
+
+    def classify(c, dry=False):
+        f = c.func
+        if isinstance(f, ast.Name):
+            if f.id in ("bool",):
+                return "transparent"
+            r = _resolve_function(repo, rel, f.id)
+            if r is not None:
+                if _function_is_impure(repo, r[0], r[1]):
+                    if not dry:
+                        probes[txt(c)] = _probe_rows(what, r[1], c)
+                    return "probe"
+                if not dry:
+                    preds.append(txt(c))
+                return "predicate"
+            if f.id[:1].isupper() and f.id not in ("Path",) and (
+                    isinstance(repo.lookup(rel, f.id, missing_ok=True),
+                               ast.ClassDef)
+                    or any(isinstance(st, ast.ImportFrom) and any(
+                        (al.asname or al.name) == f.id for al in st.names)
+                        for st in repo.tree(rel).body)):
+                if not dry:
+                    objs.append(txt(c))
+                return "object"
+        if isinstance(f, ast.Attribute):
+            if f.attr in PATH_PROBES and isinstance(
+                    f.value, ast.Call) and dotted(f.value.func) in (
+                    "pathlib.Path", "Path"):
+                if not dry:
+                    probes[txt(c)] = [(True, True), (False, False),
+                                      (_RAISES, False)]
+                return "probe"
+            if isinstance(f.value, ast.Name) and local_object(f.value.id):
+                # a request sent through a freshly made API object
+                if not dry:
+                    probes[txt(c)] = [(True, True), (False, False),
+                                      (_RAISES, False)]
+                return "probe"
+        return None
+
+    def visit(node):
+        for ch in ast.iter_child_nodes(node):
+            if isinstance(ch, (ast.FunctionDef, ast.AsyncFunctionDef,
+                               ast.Lambda, ast.ClassDef)):
+                continue
+            if isinstance(ch, ast.Call):
+                st = stmt_of(ch)
+                if isinstance(st, ast.Expr) or (isinstance(
+                        st, (ast.With, ast.AsyncWith)) and any(
+                        ch is x or ch in list(ast.walk(x.context_expr))
+                        for x in st.items)):
+                    continue      # not part of the decision
+                k = classify(ch)
+                if k is None:
+                    raise AnalysisError(f"{what}: call `{short(ch, 50)}` "
+                                        f"not understood")
+                if k != "transparent":
+                    continue
+            visit(ch)
+    for st in m.body:
+        if isinstance(st, ast.Expr):
+            continue
+        visit(st)
+    return probes, preds, objs
+
+
+def _run_availability(m, env, raising, hidx):
+    """the value `m` returns in state `env` (normalised text -> value);
+    the calls whose text is in `raising` raise; `hidx` selects the handler
+    that takes the exception: -> value | _RAISES"""
+    env = dict(env)
+
+    def ev(expr):
+        if raising and any(isinstance(n, ast.Call) and txt(n) in raising
+                           for n in ast.walk(expr)):
+            raise _ProbeFailed()
+        return Mini(env).ev(expr)
+
+    def assign(t, v):
+        if isinstance(t, (ast.Name, ast.Attribute)):
+            env[txt(t)] = v
+        elif isinstance(t, (ast.Tuple, ast.List)) and isinstance(
+                v, tuple) and len(v) == len(t.elts):
+            for x, y in zip(t.elts, v):
+                assign(x, y)
+        else:
+            raise Unknown(txt(t))
+
+    def block(stmts):
+        for st in stmts:
+            r = None
+            if isinstance(st, ast.If):
+                r = block(st.body if ev(st.test) else st.orelse)
+            elif isinstance(st, ast.With):
+                if any(i.optional_vars is not None for i in st.items):
+                    raise Unknown(txt(st)[:50])
+                r = block(st.body)
+            elif isinstance(st, ast.Try):
+                try:
+                    try:
+                        r = block(st.body)
+                    except _ProbeFailed:
+                        if not st.handlers:
+                            raise
+                        h = st.handlers[min(hidx, len(st.handlers) - 1)]
+                        if h.name:
+                            env[h.name] = Model()
+                        r = block(h.body)
+                    else:
+                        if r is None:
+                            r = block(st.orelse)
+                finally:
+                    if st.finalbody:
+                        r2 = block(st.finalbody)
+                        r = r2 if r2 is not None else r
+            elif isinstance(st, ast.Return):
+                return ("return", None if st.value is None
+                        else ev(st.value))
+            elif isinstance(st, ast.Raise):
+                raise _ProbeFailed()
+            elif isinstance(st, ast.Assign):
+                v = ev(st.value)
+                for t in st.targets:
+                    assign(t, v)
+            elif isinstance(st, ast.AnnAssign) and st.value is not None:
+                assign(st.target, ev(st.value))
+            elif isinstance(st, (ast.Expr, ast.Pass, ast.AnnAssign)):
+                continue
+            else:
+                raise Unknown(txt(st)[:60])
+            if r is not None:
+                return r
+        return None
+    try:
+        r = block(m.body)
+    except _ProbeFailed:
+        return _RAISES
+    return None if r is None else r[1]
+
+
+def r144_verdict(ctx, repo):
+    """a basin is reported available only when its probe said so: the
+    is_available method of every file / remote basin class is evaluated on
+    the table of results its probe can deliver (for is_url_available the
+    (answer, reason) pairs read from its code), for both values of the
+    library flags and of the pure URL predicates, starting from the state
+    __init__ leaves; a truthy verdict needs an affirmative probe result"""
+    import itertools
+    done = 0
+    for rel, cls, fmt, typ in fold_basin_classes(repo):
+        if typ not in ("remote", "file"):
+            continue
+        m0 = method(cls, "is_available")
+        if m0 is None:
+            raise AnalysisError(f"{rel}::{cls.name}: is_available not "
+                                f"defined in the class")
+        what = f"{cls.name}.is_available"
+        m = inline_module_helpers(repo, rel, m0, methods=True,
+                                  functions=False)
+        probes, preds, objs = _availability_oracles(repo, rel, m, what)
+        if len(probes) != 1:
+            raise AnalysisError(f"{what}: {len(probes)} probes of the "
+                                f"basin location found (expected one)")
+        # state the constructor leaves
+        state = {}
+        attrs = {txt(t) for n in walk(m) if isinstance(n, ast.Assign)
+                 for t in n.targets if is_self_attr(t)}
+        inits = [i for i in (method_mro(repo, rel, cls, "__init__"),
+                             repo.func(FB, "Basin.__init__")) if i]
+        for at in sorted(attrs):
+            vals = [n.value for i in inits for n in walk(i)
+                    if isinstance(n, ast.Assign) and any(
+                        txt(t) == at for t in n.targets)]
+            if len(vals) != 1 or not isinstance(vals[0], ast.Constant):
+                raise AnalysisError(f"{what}: initial value of `{at}` not "
+                                    f"found")
+            state[at] = vals[0].value
+        # module-level flags the decision reads
+        local = {n.id for n in walk(m) if isinstance(n, ast.Name)
+                 and isinstance(n.ctx, ast.Store)} | {
+            h.name for h in walk(m) if isinstance(h, ast.ExceptHandler)
+            and h.name}
+        oracle_txt = set(probes) | set(preds) | set(objs)
+
+        def free_names(node, out):
+            for ch in ast.iter_child_nodes(node):
+                if isinstance(ch, ast.Call) and txt(ch) in oracle_txt:
+                    continue
+                if isinstance(ch, ast.ExceptHandler):
+                    for s in ch.body:
+                        free_names(s, out)
+                    continue
+                if isinstance(ch, ast.Expr) or (isinstance(
+                        ch, ast.withitem)):
+                    continue
+                if isinstance(ch, ast.Name) and isinstance(
+                        ch.ctx, ast.Load) and ch.id not in local \
+                        and ch.id not in ("self", "bool", "True", "False",
+                                          "None"):
+                    out.add(ch.id)
+                free_names(ch, out)
+        flags = set()
+        for st in m.body:
+            if not isinstance(st, ast.Expr):
+                free_names(ast.Module(body=[st], type_ignores=[]), flags)
+        if any(not re.fullmatch(r"[A-Z][A-Z0-9_]*", f) for f in flags):
+            raise AnalysisError(f"{what}: free names {sorted(flags)} not "
+                                f"understood")
+        (ptxt, rows), = probes.items()
+        n_handlers = max([len(t.handlers) for t in walk(m)
+                          if isinstance(t, ast.Try)] + [1])
+        dims = sorted(flags) + sorted(set(preds))
+        bad, n_rows, positive = [], 0, 0
+        for combo in itertools.product((True, False), repeat=len(dims)):
+            for value, avail in rows:
+                for hidx in range(n_handlers if value == _RAISES else 1):
+                    env = dict(state)
+                    env.update(dict(zip(dims, combo)))
+                    env.update({o: Model() for o in objs})
+                    raising = set()
+                    if value == _RAISES:
+                        raising.add(ptxt)
+                    else:
+                        env[ptxt] = value
+                    try:
+                        verdict = _run_availability(m, env, raising, hidx)
+                    except Raises:
+                        verdict = _RAISES
+                    except Unknown as u:
+                        raise AnalysisError(f"{what}: cannot evaluate "
+                                            f"`{u}`")
+                    n_rows += 1
+                    truthy = verdict != _RAISES and bool(verdict)
+                    positive += truthy
+                    if truthy and not avail:
+                        shown = "an exception" if value == _RAISES else \
+                            repr(tuple(value) if isinstance(value, tuple)
+                                 else value)
+                        bad.append((shown, dict(zip(dims, combo)), verdict))
+        if not positive:
+            ctx.note(f"{what}: no row of the probe table makes the basin "
+                     f"available")
+        ctx.stat(f"R14.4 availability table rows {cls.name}", n_rows)
+        ok = not bad
+        probe_node = [n for n in walk(m0) if isinstance(n, ast.Call)
+                      and txt(n) == ptxt]
+        ctx.ob("R14.4", ok,
+               f"{what} answers true only for an affirmative result of "
+               f"`{short(ast.parse(ptxt, mode='eval').body, 40)}` "
+               f"({n_rows} rows)" if ok else
+               f"{what} returns {bad[0][2]!r} although the probe "
+               f"`{short(ast.parse(ptxt, mode='eval').body, 40)}` delivered "
+               f"{bad[0][0]}"
+               + (f" with {bad[0][1]}" if bad[0][1] else "")
+               + f" ({len(bad)} of {n_rows} rows): an unreachable basin is "
+               f"cached as available, its features are offered "
+               f"(features_basin, `feat in ds`) and reading them ends in "
+               f"KeyError instead of the features being unavailable",
+               node=(probe_node or [m0])[0],
+               key=f"{rel}::{what}::available only on an affirmative probe "
+               f"result")
+        done += 1
+    if done < 4:
+        raise AnalysisError(f"availability verdicts: only {done} file / "
+                            f"remote basin classes evaluated (4 known: "
+                            f"hdf5, http, s3, dcor)")
+
+
 def single_assign_any(func, name):
     """value of the first plain assignment to `name` (or None)"""
     for n in walk(func):
@@ -2136,7 +2573,9 @@ def run(ctx):
     ctx.rule("R14.4", "degradation: basin access inside try, catch-all, no "
              "re-raise, None unless delivered, copy iteration, available "
              "basins only, availability probed on every call with the semantics "
-             "of the data access; transient failures re-checked", minimum=16)
+             "of the data access; transient failures re-checked; verdict "
+             "true only on an affirmative probe result (table of probe "
+             "results, 4 classes)", minimum=20)
     sites = Sites(expand_partials(inline_module_helpers(
         repo, CORE, repo.func(CORE, "RTDCBase.basins_retrieve"),
         methods=True, keep=KEEP_CALLS)))
@@ -2148,6 +2587,7 @@ def run(ctx):
     r144(ctx, repo)
     r144_probes(ctx, repo)
     r144_transient(ctx, repo)
+    r144_verdict(ctx, repo)
 
 
 def crossval(ctx):
@@ -2922,4 +3362,68 @@ MUTANTS = list(MUTANTS) + [
     ("agreement test compares the format", "dclab/rtdc_dataset/core.py",
      ('elif bdict["type"] != b_cls.basin_type:',
       'elif bdict["format"] != b_cls.basin_format:'), "R14.1"),
+]
+
+# R14.4 (availability verdict evaluated on the table of probe results)
+DCORB = "dclab/rtdc_dataset/fmt_dcor/basin.py"
+MUTANTS = list(MUTANTS) + [
+    ("http: third case of the probe decision lost (elif avail -> else)",
+     HTTPF,
+     ("                    elif avail:\n", "                    else:\n"),
+     "R14.4"),
+    ("http: reason 'none' taken for the affirmative answer", HTTPF,
+     ("                    elif avail:\n",
+      "                    elif avail or reason != \"none\":\n"), "R14.4"),
+    ("s3: probe result compared with None", S3F,
+     ("                            is_s3_object_available(self.location)\n",
+      "                            is_s3_object_available(self.location) "
+      "is not None\n"), "R14.4"),
+    ("dcor: access error answered with available", DCORB,
+     ("                except DCORAccessError:\n"
+      "                    self._available_verified = False\n",
+      "                except DCORAccessError:\n"
+      "                    self._available_verified = True\n"), "R14.4"),
+    ("dcor: invalid resource counted as available", DCORB,
+     ('self._available_verified = api.get("valid")',
+      'self._available_verified = api.get("valid") is not None'), "R14.4"),
+    ("hdf5: OSError of the existence test answered with available", H5BASIN,
+     ("                except OSError:\n                    pass\n",
+      "                except OSError:\n"
+      "                    self._available_verified = True\n"), "R14.4"),
+]
+TWINS = list(TWINS) + [
+    ("http: affirmative answer tested first, pair kept as one tuple", HTTPF,
+     ("                    avail, reason = is_url_available(self.location,\n"
+      "                                                     ret_reason=True)\n"
+      "                    if reason in [\"forbidden\", \"not found\"]:\n"
+      "                        # we cannot access the URL in the near future\n"
+      "                        self._available_verified = False\n"
+      "                    elif avail:\n"
+      "                        self._available_verified = True\n",
+      "                    res = is_url_available(self.location,\n"
+      "                                           ret_reason=True)\n"
+      "                    if res[0]:\n"
+      "                        self._available_verified = True\n"
+      "                    elif res[1] in (\"forbidden\", \"not found\"):\n"
+      "                        self._available_verified = False\n")),
+    ("s3: flag and probe joined by `and`", S3F,
+     ("                if not BOTO3_AVAILABLE:\n"
+      "                    self._available_verified = False\n"
+      "                else:\n"
+      "                    self._available_verified = \\\n"
+      "                            is_s3_object_available(self.location)\n",
+      "                self._available_verified = bool(\n"
+      "                    BOTO3_AVAILABLE\n"
+      "                    and is_s3_object_available(self.location))\n")),
+    ("dcor: answer kept in a local, stored in the else branch", DCORB,
+     ('                try:\n'
+      '                    self._available_verified = api.get("valid")\n'
+      '                except DCORAccessError:\n'
+      '                    self._available_verified = False\n',
+      '                try:\n'
+      '                    valid = api.get("valid")\n'
+      '                except DCORAccessError:\n'
+      '                    self._available_verified = False\n'
+      '                else:\n'
+      '                    self._available_verified = valid\n')),
 ]
